@@ -194,6 +194,7 @@ def run_shard(shard, ctx):
 
 
 def replay(case, ctx):
+    re.purge()
     fam, cg = case["fam"], case.get("cg") or {}
     live = decl.open_live(ctx, fam, cg)
     if live is None:
